@@ -197,7 +197,9 @@ pub fn close_tag(e: &Elem, sp: &Spell) -> String {
         Cond::Unreg => &sp.unreg,
     };
     let pad = if (e.style >> 4) & 3 == 3 { " " } else { "" };
-    format!("{}{pad}/{name}{pad}{}", sp.ds, sp.de)
+    // bits 16-17: the closing tag carries attribute-like content (the comment attribute; a trailing blank); it closes all the same
+    let extra = ["", " c=\"end\"", " ", " c='/x' k"][(e.style >> 16) & 3];
+    format!("{}{pad}/{name}{extra}{pad}{}", sp.ds, sp.de)
 }
 
 fn is_blank(s: &str) -> bool {
@@ -503,6 +505,8 @@ pub struct Opts {
     pub join_pct: usize,
     /// probability (percent) that the opening tag of a block element spans several lines (one attribute per line)
     pub multiline_tag_pct: usize,
+    /// probability (percent) that a closing tag carries attribute-like content (`</rm c="end">`)
+    pub close_attr_pct: usize,
 }
 
 impl Opts {
@@ -525,6 +529,7 @@ impl Opts {
             first_line_empty_pct: 5,
             join_pct: 0,
             multiline_tag_pct: 0,
+            close_attr_pct: 0,
             odd_conditions: true,
             unique_lines: true,
             tag_styles: true,
@@ -622,7 +627,10 @@ impl<'a, 't> Gen<'a, 't> {
             _ => (Cond::RmNoName(self.t.below(3)), false),
         };
         let unwrap = unwrap_allowed && self.t.chance(self.o.unwrap_pct);
-        let style = if self.o.tag_styles { self.t.below(8192) } else { 0 };
+        let mut style = if self.o.tag_styles { self.t.below(8192) } else { 0 };
+        if self.o.close_attr_pct > 0 && self.t.chance(self.o.close_attr_pct) {
+            style |= (1 + self.t.below(3)) << 16;
+        }
         Elem { id, cond, skip, unwrap, style }
     }
     fn inline_node(&mut self, level: usize) -> Node {
@@ -722,6 +730,16 @@ impl<'a, 't> Gen<'a, 't> {
                 _ => {
                     if depth_left > 0 {
                         let unwrap_ok = !in_unwrap_body || self.o.nested_unwrap;
+                        // the closing tag of the sibling above and this element's opening tag on one line (`</a> <b>`)
+                        if self.o.join_pct > 0 && matches!(v.last(), Some(Node::Block { .. })) && self.t.chance(self.o.join_pct) {
+                            v.push(Node::Join(self.t.s(&[" ", "", "  "]).to_string()));
+                            let mut b = self.block(level, depth_left, unwrap_ok, in_unwrap_body);
+                            if let Node::Block { indent, .. } = &mut b {
+                                indent.clear();
+                            }
+                            v.push(b);
+                            continue;
+                        }
                         v.push(self.block(level, depth_left, unwrap_ok, in_unwrap_body))
                     } else {
                         v.push(self.code_line(level))
